@@ -72,14 +72,15 @@ type proj struct {
 // solved by Gauss-Jordan elimination over the rationals. ok=false if the system is singular.
 func solveProjective(src, dst [4]pt) (*proj, bool) {
 	var m [8][9]*big.Rat
-	zero := func() *big.Rat { return new(big.Rat) }
+	cp := func(r *big.Rat) *big.Rat { return new(big.Rat).Set(r) } // entries are updated in place: no sharing
 	for i := 0; i < 4; i++ {
 		X := rsub(src[i].x, src[0].x)
 		Y := rsub(src[i].y, src[0].y)
 		u, v := dst[i].x, dst[i].y
-		m[2*i] = [9]*big.Rat{X, Y, ri(1, 1), zero(), zero(), zero(), new(big.Rat).Neg(rmul(u, X)), new(big.Rat).Neg(rmul(u, Y)), u}
-		m[2*i+1] = [9]*big.Rat{zero(), zero(), zero(), X, Y, ri(1, 1), new(big.Rat).Neg(rmul(v, X)), new(big.Rat).Neg(rmul(v, Y)), v}
+		m[2*i] = [9]*big.Rat{cp(X), cp(Y), ri(1, 1), ri(0, 1), ri(0, 1), ri(0, 1), new(big.Rat).Neg(rmul(u, X)), new(big.Rat).Neg(rmul(u, Y)), cp(u)}
+		m[2*i+1] = [9]*big.Rat{ri(0, 1), ri(0, 1), ri(0, 1), cp(X), cp(Y), ri(1, 1), new(big.Rat).Neg(rmul(v, X)), new(big.Rat).Neg(rmul(v, Y)), cp(v)}
 	}
+	t := new(big.Rat)
 	for c := 0; c < 8; c++ {
 		p := -1
 		for r := c; r < 8; r++ {
@@ -94,17 +95,18 @@ func solveProjective(src, dst [4]pt) (*proj, bool) {
 		m[c], m[p] = m[p], m[c]
 		inv := new(big.Rat).Inv(m[c][c])
 		for k := c; k < 9; k++ {
-			m[c][k] = rmul(m[c][k], inv)
+			m[c][k].Mul(m[c][k], inv)
 		}
 		for r := 0; r < 8; r++ {
 			if r == c || m[r][c].Sign() == 0 {
 				continue
 			}
-			f := m[r][c]
-			for k := c + 1; k < 9; k++ {
-				m[r][k] = rsub(m[r][k], rmul(f, m[c][k]))
+			f := cp(m[r][c])
+			for k := c; k < 9; k++ {
+				if m[c][k].Sign() != 0 {
+					m[r][k].Sub(m[r][k], t.Mul(f, m[c][k]))
+				}
 			}
-			m[r][c] = zero()
 		}
 	}
 	pr := &proj{ox: src[0].x, oy: src[0].y}
@@ -131,6 +133,86 @@ func (p *proj) apply(x, y *big.Rat) (u, v, den, mag *big.Rat) {
 	return new(big.Rat).Quo(nu, den), new(big.Rat).Quo(nv, den), den, mag
 }
 
+// iproj is the same map as a 3x3 integer matrix acting on homogeneous integer points: the rational
+// matrix [h0 h1 h2-h0 ox-h1 oy; h3 h4 h5-h3 ox-h4 oy; h6 h7 1-h6 ox-h7 oy] multiplied by the least
+// common multiple of its denominators. It exists only to make evaluation cheap (selfCheck compares
+// it with apply).
+type iproj struct{ a [9]*big.Int }
+
+func (p *proj) integer() *iproj {
+	c := func(a, b, k *big.Rat) *big.Rat { return rsub(rsub(k, rmul(a, p.ox)), rmul(b, p.oy)) }
+	rows := [9]*big.Rat{p.h[0], p.h[1], c(p.h[0], p.h[1], p.h[2]), p.h[3], p.h[4], c(p.h[3], p.h[4], p.h[5]), p.h[6], p.h[7], c(p.h[6], p.h[7], ri(1, 1))}
+	L := big.NewInt(1)
+	for _, r := range rows {
+		g := new(big.Int).GCD(nil, nil, L, r.Denom())
+		L.Mul(L, new(big.Int).Quo(r.Denom(), g))
+	}
+	q := &iproj{}
+	for i, r := range rows {
+		q.a[i] = new(big.Int).Mul(r.Num(), new(big.Int).Quo(L, r.Denom()))
+	}
+	return q
+}
+
+// applyHInt maps the point (xn/d, yn/d) to the homogeneous integer point (U0:U1:U2): u = U0/U2,
+// v = U1/U2. horizon reports |U2| < mag/16 with mag = |a6 xn| + |a7 yn| + |a8 d| (the same test as
+// in apply, independent of scaling), and also U2 = 0.
+func (q *iproj) applyHInt(xn, yn, d *big.Int) (U [3]*big.Int, horizon bool) {
+	mag := new(big.Int)
+	t := new(big.Int)
+	for r := 0; r < 3; r++ {
+		s := new(big.Int).Mul(q.a[3*r], xn)
+		if r == 2 {
+			mag.Abs(s)
+		}
+		t.Mul(q.a[3*r+1], yn)
+		s.Add(s, t)
+		if r == 2 {
+			mag.Add(mag, new(big.Int).Abs(t))
+		}
+		t.Mul(q.a[3*r+2], d)
+		s.Add(s, t)
+		if r == 2 {
+			mag.Add(mag, new(big.Int).Abs(t))
+		}
+		U[r] = s
+	}
+	if U[2].Sign() == 0 {
+		return U, true
+	}
+	return U, new(big.Int).Lsh(new(big.Int).Abs(U[2]), 4).Cmp(mag) < 0
+}
+
+// applyH is applyHInt with the result as exact rationals (nil, nil at infinity).
+func (q *iproj) applyH(xn, yn, d *big.Int) (u, v *big.Rat, horizon bool) {
+	U, hz := q.applyHInt(xn, yn, d)
+	if U[2].Sign() == 0 {
+		return nil, nil, true
+	}
+	return new(big.Rat).SetFrac(U[0], U[2]), new(big.Rat).SetFrac(U[1], U[2]), hz
+}
+
+// intF converts an integer to the nearest float64 (relative error <= 2^-53).
+func intF(x *big.Int) float64 {
+	if x.IsInt64() {
+		return float64(x.Int64())
+	}
+	f, _ := new(big.Float).SetInt(x).Float64()
+	return f
+}
+
+// quoF is num/den rounded to float64 with relative error below 4 * 2^-53 (two conversions and one
+// division), which is ten orders of magnitude below the tolerance it is used with.
+func quoF(num, den *big.Int) float64 { return intF(num) / intF(den) }
+
+// homog writes the exactly converted floats x, y over a common denominator.
+func homog(x, y float64) (xn, yn, d *big.Int) { return homogR(rf(x), rf(y)) }
+
+func homogR(rx, ry *big.Rat) (xn, yn, d *big.Int) {
+	d = new(big.Int).Mul(rx.Denom(), ry.Denom())
+	return new(big.Int).Mul(rx.Num(), ry.Denom()), new(big.Int).Mul(ry.Num(), rx.Denom()), d
+}
+
 // floorRat returns floor(r) (big.Int.Div is Euclidean; a Rat's denominator is positive).
 func floorRat(r *big.Rat) int64 {
 	q := new(big.Int).Div(r.Num(), r.Denom())
@@ -140,15 +222,12 @@ func floorRat(r *big.Rat) int64 {
 	return q.Int64()
 }
 
-var r64th = ri(1, 64)
-
 // nearBoundary: r is within 1/64 of an integer.
 func nearBoundary(r *big.Rat) bool {
-	fr := rsub(r, new(big.Rat).SetInt64(floorRat(r)))
-	return fr.Cmp(r64th) < 0 || fr.Cmp(ri(63, 64)) > 0
+	rem := new(big.Int).Mod(r.Num(), r.Denom()) // 0 <= rem < denom; rem/denom is the fractional part
+	rem.Lsh(rem, 6)
+	return rem.Cmp(r.Denom()) < 0 || rem.Cmp(new(big.Int).Mul(r.Denom(), big.NewInt(63))) > 0
 }
-
-func f64(r *big.Rat) float64 { f, _ := r.Float64(); return f }
 
 // ---------------------------------------------------------------- nudging model
 
@@ -166,17 +245,17 @@ const (
 // classify returns the class, the model pixel index (valid unless clNF) and whether c is beyond the
 // low (-1) or the high (+1) edge (0 when inside).
 func classify(c *big.Rat, n int) (class int, pix int, dir int) {
-	N := new(big.Rat).SetInt64(int64(n))
+	f := floorRat(c)
 	switch {
-	case c.Cmp(ri(-2, 1)) <= 0:
+	case f <= -3 || (f == -2 && c.IsInt()): // c <= -2
 		return clNF, 0, -1
-	case c.Cmp(ri(-1, 1)) < 0:
+	case f == -2: // -2 < c < -1
 		return clBand, 0, -1
-	case c.Sign() < 0:
+	case f == -1: // -1 <= c < 0
 		return clLow, 0, -1
-	case c.Cmp(N) < 0:
-		return clIn, int(floorRat(c)), 0
-	case c.Cmp(radd(N, ri(1, 1))) < 0:
+	case f < int64(n):
+		return clIn, int(f), 0
+	case f == int64(n): // n <= c < n+1
 		return clHigh, n - 1, 1
 	}
 	return clNF, 0, 1
